@@ -145,7 +145,29 @@ def run(tier, seed):
     for w, t, r in zip(words, rtexts, rres):
         if r[0] == "ok":
             real.append({"source": t, "why": "the reserved word `%s` can be bound" % w})
-    cov["evaluations"] = len(jobs) + ns + len(words)
+    # 4. every statement form that binds a name (let, constraint) against every other, at file level and in a module body: the
+    #    second binding of a name is an error whichever form makes it, and the prefix before it still builds
+    forms = {"let": "let %s = 1;", "let_shaped": "let %s :: 0 = 1;", "constraint": 'constraint %s = in 1..10 | "";'}
+    rb_texts, rb_meta = [], []
+    for f1 in sorted(forms):
+        for f2 in sorted(forms):
+            for nm in ("x", "port"):
+                for mid in ("", "let y = 2;\n", "let y = 2 + 3;\nconstraint other = 0 | \"\";\n"):
+                    pre = forms[f1] % nm + "\n" + mid
+                    full = pre + forms[f2] % nm + "\nlet z = 3;\n"
+                    for scope in ("file", "module"):
+                        wrap = (lambda b: b) if scope == "file" else (lambda b: "let m = module { p = 1, } => {\n%s};\nlet i = m{};\n" % b)
+                        rb_texts += [wrap(pre), wrap(full)]
+                        rb_meta.append((f1, f2, nm, scope, wrap(full)))
+    rb_res = S.run_impl(rb_texts)
+    for k, (f1, f2, nm, scope, full) in enumerate(rb_meta):
+        rpre, rfull = rb_res[2 * k], rb_res[2 * k + 1]
+        if rpre[0] != "ok":
+            real.append({"source": rb_texts[2 * k], "why": "a program binding `%s` once (%s, %s scope) does not build: %r" % (nm, f1, scope, rpre)})
+        elif rfull[0] != "err":
+            real.append({"source": full, "why": "`%s` was bound a second time (%s after %s, %s scope) and the build accepted it" % (nm, f2, f1, scope)})
+    cov["rebinding_matrix"] = {"forms": sorted(forms), "programs": len(rb_meta)}
+    cov["evaluations"] = len(jobs) + ns + len(words) + len(rb_texts)
     cov["distinct_nontrivial"] = len(set(j[2] for j in jobs)) + len(set(texts))
     cov["rule"] = ("every statement-boundary prefix of seeded generated programs run through the implementation and compared with the "
                    "full run; targeted scope scenarios (format `item` with/without an outer `item`, nested formats, parameter names equal "
